@@ -62,6 +62,7 @@ func TestVerif_C38(t *testing.T) {
 	r.ParCases("conc", n, workers, func(ci int, rng *verifkit.Rand) { c38Case(r, "conc", ci, rng) })
 	// a few very wide cases: 64 goroutines, many allocations each
 	r.Cases("wide", r.N(6, 24), func(ci int, rng *verifkit.Rand) { c38Wide(r, "wide", ci, rng) })
+	c38FirstIDs(r)
 	r.Require("ids_allocated", 500000)
 	r.Require("cases_via_connection", 50)
 	r.Require("cases_via_allocator", 50)
@@ -203,4 +204,67 @@ func c38Run(r *verifkit.R, phase string, ci int, rng *verifkit.Rand, via string,
 		r.Sample(map[string]any{"via": via, "goroutines_per_side": g, "per_goroutine": per,
 			"dialer_min": lo, "dialer_max": hi, "acceptor_min": flat[1][0], "acceptor_max": flat[1][len(flat[1])-1]})
 	}
+}
+
+// c38FirstIDs: the first identifiers of very many fresh allocators / connections. A start value
+// that depends on anything but the role (a random base, say) shows only on the first Next() of
+// a rare allocator, so the sample has to be large: >= 10^6 allocators and 2*10^5 connections per
+// role in the quick tier. Checked per object: the first 3 ids are nonzero (0 is
+// protocol.ControlStreamID), have the parity of the role and are pairwise distinct.
+func c38FirstIDs(r *verifkit.R) {
+	const workers = 8
+	nAlloc := r.N(1000000, 10000000)
+	nConn := r.N(200000, 600000)
+	type bad struct {
+		key, detail string
+		ids         []uint64
+	}
+	run := func(phase, via string, total int, mk func(dialer bool) (c38Alloc, func())) {
+		var wg sync.WaitGroup
+		var mu sync.Mutex
+		var bads []bad
+		per := total / workers
+		for w := 0; w < workers; w++ {
+			wg.Add(1)
+			go func() {
+				defer wg.Done()
+				var local []bad
+				for i := 0; i < per; i++ {
+					for _, dialer := range []bool{true, false} {
+						next, cl := mk(dialer)
+						ids := []uint64{next(), next(), next()}
+						cl()
+						side := map[bool]string{true: "dialer", false: "acceptor"}[dialer]
+						for k, id := range ids {
+							switch {
+							case id == 0:
+								local = append(local, bad{side + ":zero-id", fmt.Sprintf("a fresh %s-side %s returned 0 (the control stream id) as id #%d", side, via, k+1), ids})
+							case (id%2 == 1) != dialer:
+								local = append(local, bad{side + ":wrong-parity", fmt.Sprintf("a fresh %s-side %s returned id %d as id #%d", side, via, id, k+1), ids})
+							case k > 0 && (ids[k-1] == id || ids[0] == id):
+								local = append(local, bad{side + ":duplicate-id", fmt.Sprintf("a fresh %s-side %s returned id %d twice within its first 3 ids", side, via, id), ids})
+							}
+						}
+						if len(local) > 8 {
+							break
+						}
+					}
+				}
+				mu.Lock()
+				bads = append(bads, local...)
+				mu.Unlock()
+			}()
+		}
+		wg.Wait()
+		for _, b := range bads {
+			r.Violation(b.key, phase, 0, b.detail, map[string]any{"via": via, "first_ids": b.ids})
+		}
+		r.Add("fresh_"+via+"s_per_role_first_ids_checked", per*workers)
+		r.Add("ids_allocated", per*workers*2*3)
+		r.Eval(fmt.Sprintf("first-ids/%s/%d", via, per*workers), per*workers >= 1000)
+	}
+	run("first-alloc", "allocator", nAlloc, func(d bool) (c38Alloc, func()) { return c38Make("allocator", d) })
+	run("first-conn", "connection", nConn, func(d bool) (c38Alloc, func()) { return c38Make("connection", d) })
+	r.Require("fresh_allocators_per_role_first_ids_checked", 1000000)
+	r.Require("fresh_connections_per_role_first_ids_checked", 200000)
 }
